@@ -10,8 +10,9 @@
 void error(char *fmt, ...) {
   va_list ap;
   va_start(ap, fmt);
+  printf("\nABORT ");
   vfprintf(stdout, fmt, ap);
-  printf("\nABORT\n");
+  printf("\n");
   fflush(stdout);
   _exit(3);
 }
